@@ -13,24 +13,70 @@ Proof.
   - induction H; [constructor | econstructor; eauto].
 Qed.
 
-(* one copyGraph run per root: an accepted trace of C01's transition system that
-   returned success from a link-closed destination, and whose destination content
-   is part of the final destination (stores only grow during a copy) *)
-Definition copy_run_of (g : graph) (final : list node) (r : nat) : Prop :=
+(* ---- ExtendedCopyGraph's copy phase is ONE run of C01's transition system: all roots are
+   dispatched by one syncutil.Go and share the tracker, the proxy and the limiter
+   (cfg: c_root = one root, c_xroots = the others).  C01 proves closure below c_root;
+   the same invariants give it below every further root: "Ret true" is only accepted
+   when every root is Done. *)
+
+Lemma step_ret_true_x g c st e st' : step g c st e = Some st' -> returned st' = Some true ->
+  forall r, In r (c_xroots c) -> ph st' r = Done.
+Proof.
+  intros H Hr. step_inv H; cbn [set_ph ph dst cached tag returned] in *; try congruence.
+  intros r Hin.
+  match goal with Hx : forallb (fun r => is_done (ph st r)) _ = true |- _ =>
+    rewrite forallb_forall in Hx; specialize (Hx r Hin) end.
+  destruct (ph st r); simpl in *; congruence.
+Qed.
+
+Lemma run_ret_true_x g c tr : forall st st', run g c st tr = Some st' ->
+  returned st = None -> returned st' = Some true ->
+  forall r, In r (c_xroots c) -> ph st' r = Done.
+Proof.
+  induction tr as [|e tr IH]; simpl; intros st st' H Hn Hr.
+  - injection H as <-. congruence.
+  - destruct (step g c st e) as [st1|] eqn:E; [|discriminate].
+    destruct (returned st1) as [bb|] eqn:R1.
+    + destruct tr as [|e' tr']; simpl in H.
+      * injection H as <-. eapply step_ret_true_x; eauto.
+      * rewrite (step_after_ret g c st1 e' bb R1) in H. discriminate.
+    + eapply IH; eauto.
+Qed.
+
+(* closure below every root of a successful run *)
+Lemma closure_all_roots g c d0 tr st :
+  closed_nodes g d0 -> mt_consistent g ->
+  accepts g c d0 tr = Some st -> returned st = Some true ->
+  forall r, In r (c_root c :: c_xroots c) ->
+  forall n, Proofs.CopySpec.reach g r n -> has g (dst st) n = true.
+Proof.
+  intros Hc Hmt Ha Hr r [<- | Hin] n Hn.
+  - eapply closure_lemma; eauto.
+  - unfold accepts in Ha.
+    pose proof (run_inv g c d0 tr _ _ (init_inv g c d0) Ha) as I.
+    pose proof (run_ret_true_x g c tr _ _ Ha eq_refl Hr r Hin) as Hd.
+    eapply reach_closed; eauto using (i_closed g c d0 st I Hc).
+    apply (i_present g c d0 st I). now rewrite Hd.
+Qed.
+
+(* the copy phase of ExtendedCopyGraph for the roots found: one accepted run that dispatches
+   every root, returned success from a link-closed destination, and whose destination content
+   is (part of) the final destination *)
+Definition extended_copy_run (g : graph) (final : list node) (roots : list desc) : Prop :=
   exists (c : cfg) (d0 : list node) (tr : list event) (st : state),
-    c_root c = r /\ closed_nodes g d0 /\
+    (forall r, In r roots -> In (d_id r) (c_root c :: c_xroots c)) /\
+    closed_nodes g d0 /\
     accepts g c d0 tr = Some st /\ returned st = Some true /\
     (forall x, has g (dst st) x = true -> has g final x = true).
 
 Lemma copy_closure_from_C01 (g : graph) (final : list node) (roots : list desc) :
   mt_consistent g ->
-  (forall r, In r roots -> copy_run_of g final (d_id r)) ->
+  extended_copy_run g final roots ->
   forall r, In r roots -> forall x, down (succ' g) (d_id r) x -> has g final x = true.
 Proof.
-  intros Hmt Hruns r Hr x Hx.
-  destruct (Hruns r Hr) as (c & d0 & tr & st & Hroot & Hcl & Hacc & Hret & Hincl).
-  apply Hincl. apply (closure_lemma g c d0 tr st Hcl Hmt Hacc Hret).
-  rewrite Hroot. now apply down_reach.
+  intros Hmt (c & d0 & tr & st & Hroots & Hcl & Hacc & Hret & Hincl) r Hr x Hx.
+  apply Hincl. apply (closure_all_roots g c d0 tr st Hcl Hmt Hacc Hret (d_id r) (Hroots r Hr)).
+  now apply down_reach.
 Qed.
 
 (* unlimited depth: the destination holds the graph of every member of the given
@@ -41,7 +87,7 @@ Lemma extended_closure_C01 (s : source) (fs : list filter) (limit : Z) (nd : des
   (forall x p, In p (s_preds s x) -> In x (succ' g (d_id p))) ->
   mt_consistent g ->
   find_roots fuel s fs limit nd = Some roots ->
-  (forall r, In r roots -> copy_run_of g final (d_id r)) ->
+  extended_copy_run g final roots ->
   (limit <= 0)%Z ->
   forall a, anc s fs (d_id nd) a ->
   forall x, Proofs.CopySpec.reach g a x -> has g final x = true.
@@ -59,7 +105,7 @@ Lemma depth_own_graph_C01 (s : source) (fs : list filter) (limit : Z) (nd : desc
   (forall x p, In p (s_preds s x) -> In x (succ' g (d_id p))) ->
   mt_consistent g ->
   find_roots fuel s fs limit nd = Some roots ->
-  (forall r, In r roots -> copy_run_of g final (d_id r)) ->
+  extended_copy_run g final roots ->
   forall x, Proofs.CopySpec.reach g (d_id nd) x -> has g final x = true.
 Proof.
   intros Hac Hinv Hmt Hf Hruns x Hx.
@@ -68,31 +114,126 @@ Proof.
   now apply down_reach.
 Qed.
 
-(* the hypotheses are satisfiable: C01's own example run (g_ex, c_ex, tr_ex) as the
-   copy of the single root 3 found above node 1 *)
-Definition ex_src_c01 : source :=
-  mkSource (fun x => match x with
-                     | 0 => [mkDesc 2 [] None; mkDesc 3 [] None]
-                     | 1 => [mkDesc 2 [] None]
-                     | 2 => [mkDesc 3 [] None]
-                     | _ => [] end)
-           (fun x => match x with 2 => KImage | 3 => KIndex | _ => KOther end)
+(* the hypotheses are satisfiable with two roots that share a child: blob 0 <- manifests 1 and 2
+   (both roots of the upward closure of 0); one run, Concurrency 2, the two roots interleaved,
+   the shared blob copied once *)
+Definition g_two : graph :=
+  mkGraph 3 (fun n => match n with 1 => [0] | 2 => [0] | _ => [] end) (fun _ => false)
+          (fun n => Nat.leb 1 n) (fun n => n).
+Definition c_two : cfg := mkCfg 2 MGraph 1 false true [] [2].
+Definition tr_two : list event :=
+  [ExB 1; ExB 2; ExE 1 false; ExE 2 false; SFB 1; SFE 1; SFC 1; SFB 2; SFE 2; SFC 2;
+   ExB 0; ExE 0 false; Cb CPre 0; SFB 0; SFE 0; PuB 0 false; PuE 0 false POk; SFC 0; Cb CPost 0;
+   Cb CPre 2; PuB 2 false; PuE 2 false POk; Cb CPost 2;
+   Cb CPre 1; PuB 1 false; PuE 1 false POk; Cb CPost 1; Ret true].
+Definition src_two : source :=
+  mkSource (fun x => match x with 0 => [mkDesc 1 [] None; mkDesc 2 [] None] | _ => [] end)
+           (fun x => match x with 0 => KOther | _ => KImage end)
            (fun _ => []) (fun _ => []) (fun _ => None) false.
 
-Lemma ex_c01_bridge :
-  exists final,
-    acyclic_source ex_src_c01 (fun x => x) /\
-    (forall x p, In p (s_preds ex_src_c01 x) -> In x (succ' g_ex (d_id p))) /\
-    mt_consistent g_ex /\
-    find_roots (fuel_for ex_src_c01 4) ex_src_c01 [] 0%Z (mkDesc 1 [] None) = Some [mkDesc 3 [] None] /\
-    (forall r, In r [mkDesc 3 [] None] -> copy_run_of g_ex final (d_id r)) /\
-    present_nodes g_ex final = [0; 1; 2; 3].
+Lemma ex_two_roots :
+  acyclic_source src_two (fun x => x) /\
+  (forall x p, In p (s_preds src_two x) -> In x (succ' g_two (d_id p))) /\
+  mt_consistent g_two /\
+  find_roots (fuel_for src_two 3) src_two [] 0%Z (mkDesc 0 [] None)
+    = Some [mkDesc 2 [] None; mkDesc 1 [] None] /\
+  extended_copy_run g_two [1; 2; 0] [mkDesc 2 [] None; mkDesc 1 [] None].
 Proof.
-  destruct example_run as (Hcl & Hmt & _ & st & Hacc & Hret & _ & Hpres).
-  exists (dst st). repeat split; auto.
-  - intros x p H. destruct x as [|[|[|x]]]; simpl in H;
+  repeat split.
+  - intros x p H. destruct x as [|x]; simpl in H;
       repeat (destruct H as [<- | H]; [simpl; lia|]); contradiction.
-  - intros x p H. destruct x as [|[|[|x]]]; simpl in H;
+  - intros x p H. destruct x as [|x]; simpl in H;
       repeat (destruct H as [<- | H]; [vm_compute; auto|]); contradiction.
-  - intros r [<- | []]. exists c_ex, [1], tr_ex, st. repeat split; auto.
+  - apply mt_consistent_inj. auto.
+  - exists c_two, [], tr_two.
+    destruct (accepts g_two c_two [] tr_two) as [st|] eqn:E; [|vm_compute in E; discriminate].
+    exists st. assert (Hst : dst st = [1; 2; 0] /\ returned st = Some true).
+    { vm_compute in E. injection E as <-. split; reflexivity. }
+    destruct Hst as (Hd & Hr). repeat split; auto.
+    + intros r [<- | [<- | []]]; simpl; auto.
+    + intros m x [].
+    + now rewrite Hd.
+Qed.
+
+(* ---- nothing outside: whatever a run (successful or not) adds to the destination lies below a
+   dispatched root (C01's invariant i_orig, which holds with further roots too) ---- *)
+Lemma reach_snoc g a p x :
+  Proofs.CopySpec.reach g a p -> In x (succ' g p) -> Proofs.CopySpec.reach g a x.
+Proof.
+  intros H Hx. induction H as [a | a y b' Hy H IH].
+  - eapply reach_step; [exact Hx | constructor].
+  - eapply reach_step; [exact Hy | apply IH; exact Hx].
+Qed.
+
+Lemma dp_reach g c d0 m :
+  dp g c d0 m -> exists r, In r (c_root c :: c_xroots c) /\ Proofs.CopySpec.reach g r m.
+Proof.
+  induction 1 as [| x Hx | p x Hp IH Hab Hx].
+  - exists (c_root c). split; [left; reflexivity | constructor].
+  - exists x. split; [right; exact Hx | constructor].
+  - destruct IH as (r & Hr & Hreach). exists r. split; auto. eapply reach_snoc; eauto.
+Qed.
+
+Lemma run_writes_below_roots g c d0 tr st :
+  accepts g c d0 tr = Some st ->
+  forall m, In m (dst st) ->
+    In m d0 \/ exists r, In r (c_root c :: c_xroots c) /\ Proofs.CopySpec.reach g r m.
+Proof.
+  intros Ha m Hm. unfold accepts in Ha.
+  pose proof (run_inv g c d0 tr _ _ (init_inv g c d0) Ha) as I.
+  destruct (i_orig g c d0 st I m Hm) as [H | (H & _)]; [left; exact H | right; exact (dp_reach g c d0 m H)].
+Qed.
+
+(* the copy phase dispatched only roots that findRoots returned; [final] is what the
+   destination holds at any point of / after the run *)
+Definition extended_copy_run_only (g : graph) (d0 final : list node) (roots : list desc) : Prop :=
+  exists (c : cfg) (tr : list event) (st : state),
+    (forall r, In r (c_root c :: c_xroots c) -> In r (map d_id roots)) /\
+    accepts g c d0 tr = Some st /\
+    (forall x, In x final -> In x (dst st)).
+
+Lemma depth_nothing_outside_C01 (s : source) (fs : list filter) (limit : Z) (nd : desc)
+      (rank : nat -> nat) (fuel : nat) (roots : list desc) (g : graph) (d0 final : list node) :
+  acyclic_source s rank -> (0 < limit)%Z ->
+  find_roots fuel s fs limit nd = Some roots ->
+  extended_copy_run_only g d0 final roots ->
+  forall x, In x final ->
+    In x d0 \/
+    exists a k, (Z.of_nat k <= limit)%Z /\ anc_steps s fs k (d_id nd) a /\ Proofs.CopySpec.reach g a x.
+Proof.
+  intros Hac Hl Hf (c & tr & st & Hroots & Hacc & Hfin) x Hx.
+  destruct (depth_upper s fs rank limit nd (succ' g) (fun y => In y final) (fun y => In y d0)
+              fuel roots Hac Hl Hf) with (x := x) as [Hi | (a & k & Hk & Hp & Hd)]; auto.
+  - intros y Hy. destruct (run_writes_below_roots g c d0 tr st Hacc y (Hfin y Hy)) as [H | (r0 & Hr0 & Hreach)]; [auto|].
+    right. apply Hroots in Hr0. apply in_map_iff in Hr0. destruct Hr0 as (r & <- & Hr).
+    exists r. split; auto. now apply down_reach.
+  - right. exists a, k. repeat split; auto. now apply down_reach.
+Qed.
+
+(* the unlimited case: nothing outside the graphs of the (filtered) upward closure *)
+Lemma nothing_outside_C01 (s : source) (fs : list filter) (limit : Z) (nd : desc)
+      (rank : nat -> nat) (fuel : nat) (roots : list desc) (g : graph) (d0 final : list node) :
+  acyclic_source s rank ->
+  find_roots fuel s fs limit nd = Some roots ->
+  extended_copy_run_only g d0 final roots ->
+  forall x, In x final ->
+    In x d0 \/ exists a, anc s fs (d_id nd) a /\ Proofs.CopySpec.reach g a x.
+Proof.
+  intros Hac Hf (c & tr & st & Hroots & Hacc & Hfin) x Hx.
+  destruct (run_writes_below_roots g c d0 tr st Hacc x (Hfin x Hx)) as [H | (r0 & Hr0 & Hreach)]; [auto|].
+  right. apply Hroots in Hr0. apply in_map_iff in Hr0. destruct Hr0 as (r & <- & Hr).
+  exists (d_id r). split; auto.
+  destruct (roots_cover_node (find_preds s fs) limit nd rank (find_preds_rank s fs rank Hac) fuel roots Hf)
+    as (_ & Hall). now apply Hall.
+Qed.
+
+Lemma ex_two_roots_only :
+  extended_copy_run_only g_two [] [1; 2; 0] [mkDesc 2 [] None; mkDesc 1 [] None].
+Proof.
+  exists c_two, tr_two.
+  destruct (accepts g_two c_two [] tr_two) as [st|] eqn:E; [|vm_compute in E; discriminate].
+  exists st. assert (Hd : dst st = [1; 2; 0]) by (vm_compute in E; injection E as <-; reflexivity).
+  repeat split; auto.
+  - intros r [<- | [<- | []]]; simpl; auto.
+  - now rewrite Hd.
 Qed.
